@@ -74,6 +74,7 @@ type member struct {
 	cancel    context.CancelFunc
 	closed    bool
 	commitCtx time.Duration // > 0: CommitMessages gets a context that ends after this long
+	burst     chan struct{} // closed when the calls of the last "commitburst" have returned
 	paceUs    int
 }
 
@@ -560,7 +561,10 @@ func (r *run) fetch(m *member, n int, commit string) {
 	}
 }
 
-func (r *run) commit(m *member, msgs []kafka.Message) {
+func (r *run) commit(m *member, msgs []kafka.Message) { r.commitID(m, msgs, 0) }
+
+// commitID: cid distinguishes CommitMessages calls of one member that overlap in time (step "commitburst")
+func (r *run) commitID(m *member, msgs []kafka.Message, cid int) {
 	if len(msgs) == 0 {
 		return
 	}
@@ -568,7 +572,7 @@ func (r *run) commit(m *member, msgs []kafka.Message) {
 	for i, x := range msgs {
 		list[i] = []interface{}{fmt.Sprintf("%s/%d", x.Topic, x.Partition), x.Offset}
 	}
-	r.rec.Emit(trace.Event{"ev": "commit.call", "m": m.id, "msgs": list, "sync": r.sc.CommitMs == 0})
+	r.rec.Emit(trace.Event{"ev": "commit.call", "m": m.id, "msgs": list, "sync": r.sc.CommitMs == 0, "cid": cid})
 	to := callTimeout
 	if m.commitCtx > 0 {
 		to = m.commitCtx
@@ -580,7 +584,7 @@ func (r *run) commit(m *member, msgs []kafka.Message) {
 	if err != nil {
 		es = err.Error()
 	}
-	r.rec.Emit(trace.Event{"ev": "commit.return", "m": m.id, "msgs": list, "sync": r.sc.CommitMs == 0, "err": es})
+	r.rec.Emit(trace.Event{"ev": "commit.return", "m": m.id, "msgs": list, "sync": r.sc.CommitMs == 0, "err": es, "cid": cid})
 }
 
 // cgLoop is the application of a bare ConsumerGroup: Next, start functions, Next again.
@@ -747,6 +751,41 @@ func Run(sc *Script) []trace.Event {
 					close(done)
 				}
 				<-done
+			}
+		case "commitburst":
+			// N CommitMessages calls at the same time, one per message among the last N handed out (the first reaches the
+			// coordinator, the others queue up in the Reader); "waitburst" waits for all of them
+			if m := r.members[st.M]; m != nil && !m.closed {
+				done := make(chan struct{})
+				m.cmds <- func() {
+					n := st.N
+					if n > len(m.last) {
+						n = len(m.last)
+					}
+					var wg sync.WaitGroup
+					burst := make(chan struct{})
+					m.burst = burst
+					for i := 0; i < n; i++ {
+						msg := m.last[len(m.last)-n+i]
+						wg.Add(1)
+						go func(i int) {
+							defer wg.Done()
+							r.commitID(m, []kafka.Message{msg}, i+1)
+						}(i)
+						time.Sleep(2 * time.Millisecond) // the calls are issued in offset order
+					}
+					go func() { wg.Wait(); close(burst) }()
+					close(done)
+				}
+				<-done
+			}
+		case "waitburst":
+			if m := r.members[st.M]; m != nil && m.burst != nil {
+				select {
+				case <-m.burst:
+				case <-time.After(10 * time.Second):
+					r.rec.Emit(trace.Event{"ev": "hang", "what": "commit", "m": m.id})
+				}
 			}
 		case "waitapp":
 			if m := r.members[st.M]; m != nil && !m.closed {
